@@ -388,6 +388,17 @@ fn apply_plan(st: &State, lines: &[(String, String)]) -> Result<(Tree, Tree), St
     Ok((a, b))
 }
 
+/// A parseable archive of THIS pair that records every file present on either side at its current hash
+/// (`prefer_a`: side A's version where the sides differ): trusting it turns every one-sided file into a delete.
+fn adversarial_archive(w: &Worker, st: &State, prefer_a: bool) -> Vec<u8> {
+    let (first, second) = if prefer_a { (&st.a, &st.b) } else { (&st.b, &st.a) };
+    let mut t = first.clone();
+    for (p, c) in second {
+        t.entry(p.clone()).or_insert(*c);
+    }
+    w.archive_json(&w.a, &w.b, &t, None, 1)
+}
+
 fn fault_menu(w: &Worker, st: &State, full_trunc: bool) -> Vec<(String, Option<Vec<u8>>, bool)> {
     // (name, archive file bytes or None = absent, also leave .bak/.tmp)
     let valid = st.r.as_ref().map(|r| w.archive_json(&w.a, &w.b, r, None, 1)).unwrap_or_default();
@@ -454,6 +465,14 @@ fn fault_menu(w: &Worker, st: &State, full_trunc: bool) -> Vec<(String, Option<V
                     m.push((format!("string-garbage-adv{n}-s{k}@{off}"), Some(g), false));
                 }
             }
+        }
+    }
+    // a damaged primary NEXT TO a parseable `.bak` of the same pair that records every present file (an older
+    // generation left by save()): the damage must still mean "no base", the backup must not be promoted silently
+    for (n, t) in [("A", &adv_a), ("B", &adv_b)] {
+        let bak = mk(t, &pair, 1);
+        for (dn, dmg) in [("zero-length", Vec::new()), ("truncated-half", bak[..bak.len() / 2].to_vec()), ("garbage", Rng::new(11).bytes(200)), ("wrong-shape", b"{}".to_vec())] {
+            m.push((format!("{dn}-primary+adv{n}-bak"), Some(dmg), false));
         }
     }
     // wrong shape: valid JSON objects with fields missing or mistyped
@@ -778,6 +797,9 @@ fn worker_job(w: &Worker, job: &Job) -> JobOut {
                         let _ = std::fs::write(format!("{}.bak", ap.display()), v);
                         let _ = std::fs::write(format!("{}.tmp", ap.display()), v);
                     }
+                }
+                if name.contains("-primary+adv") {
+                    let _ = std::fs::write(format!("{}.bak", ap.display()), adversarial_archive(w, st, name.contains("+advA-")));
                 }
                 let (dres, dout) = w.run(&w.a, &w.b, true);
                 let (fres, fcap) = w.run(&w.a, &w.b, false);
